@@ -6,7 +6,7 @@ import z3
 
 from . import symfs, step
 from .crash import addr_kind, frame_after_crash
-from .pathsym import PathSym, par_explore
+from .pathsym import PathSym, par_explore, member_of
 from .universe import World
 
 FAULTV, STICKY, ERRV = z3.Int("fault_at"), z3.Bool("sticky"), z3.Int("errno_idx")
@@ -144,6 +144,11 @@ def run_fault(ps, w, menu, nerr=1, pinned=None):
             nob += 1
             if not oku:
                 bad.append(("C13:failed-call-left-pid-binding-changed", ""))
+            # ... and not half-bound either: its membership in every cid reference list is what it was
+            okh, _ = ps.valid(z3.And([post["mem"][j][i] == pre["mem"][j][i] for j in range(w.NC)]))
+            nob += 1
+            if oku and not okh:
+                bad.append(("C13:failed-call-left-pid-half-bound", "listed in a cid reference list without a pid reference"))
         if isinstance(call, step.StoreMeta):
             c = w.cell(call.f)
             okm, _ = ps.valid(post["meta"][i][c] == pre["meta"][i][c])
@@ -210,7 +215,7 @@ def explore_faults(w_args, menu_fn, nerr=1, procs=None):
     def worker(idx):
         w = World(**a)
         menu = menu_fn(w)
-        ps = PathSym(w.inv() + [z3.Or([step.CALLV == n for n in idx]), FAULTV >= 0, ERRV >= 0, ERRV < nerr])
+        ps = PathSym(w.inv() + [member_of(step.CALLV, idx), FAULTV >= 0, ERRV >= 0, ERRV < nerr])
         recs = ps.explore(lambda p: run_fault(p, w, menu, nerr))
         w.cleanup()
         return recs, ps.st.as_dict(), len(menu)
